@@ -6,6 +6,8 @@ def check(ctx, rep):
     par.par_3(ctx, rep)
     par.par_4(ctx, rep)
     par.par_5(ctx, rep)
+    par.par_7(ctx, rep)
+    par.par_10(ctx, rep)
     par.pop_shape(ctx, rep)
     gr.gr_7(ctx, rep)
     gr.gr_6(ctx, rep)
